@@ -71,13 +71,18 @@ Inductive wev :=
 | WPrepare (fd : nat)                 (* acceptor thread: toWrite entry for a new connection on this descriptor number *)
 | WRegister (fd : nat)                (* worker: handlePeer *)
 | WIn (fd : nat) (eof : bool)         (* readable half of a poll result; eof: EOF / error, the peer is removed *)
-| WOut (fd : nat) (after_in : bool).  (* writable half; after_in: the same poll result also had the readable half.
+| WOut (fd : nat) (after_in : bool)   (* writable half; after_in: the same poll result also had the readable half.
                                          The acceptor thread can run between the two halves. *)
+| WDrain (fd : nat).                  (* the descriptor's queue is written out completely and its entry erased
+                                         (asyncWriteImpl cleanUp): by the writable half itself, or earlier - by a flush()
+                                         from a handler while input was handled *)
 
 Definition mem (fd : nat) (l : list nat) : bool := existsb (Nat.eqb fd) l.
 
 (* [guarded]: skip the writable half when the peer was removed while its input was handled (fix 31ad8d6) *)
-Definition wstep (guarded : bool) (s : wstate) (e : wev) : wstate :=
+(* [strict]: the writable half throws ("could not find write data", ending the worker) when nothing is queued - the code
+   up to the fix of 2026-09-26; wstep is the code after it *)
+Definition wstep_gen (guarded strict : bool) (s : wstate) (e : wev) : wstate :=
   match e with
   | WPrepare fd => mkW (w_peers s) (if mem fd (w_towrite s) then w_towrite s else fd :: w_towrite s) (w_faults s) (w_log s)
   | WRegister fd => if mem fd (w_peers s) then s
@@ -92,9 +97,11 @@ Definition wstep (guarded : bool) (s : wstate) (e : wev) : wstate :=
       else if mem fd (w_towrite s) then
              (* re-arm the descriptor in the poll set: fails when the worker has not registered it *)
              mkW (w_peers s) (w_towrite s) (if mem fd (w_peers s) then w_faults s else S (w_faults s)) (w_log s)
-           else if after_in then s                                   (* 0d7aadf: the peer went away meanwhile *)
-           else mkW (w_peers s) (w_towrite s) (S (w_faults s)) (w_log s)   (* "Assertion Error: could not find write data" *)
+           else if strict then mkW (w_peers s) (w_towrite s) (S (w_faults s)) (w_log s)   (* "Assertion Error: could not find write data" *)
+           else s     (* nothing queued any more (drained since the event was collected): left alone *)
+  | WDrain fd => mkW (w_peers s) (drop fd (w_towrite s)) (w_faults s) (w_log s)
   end.
+Definition wstep (guarded : bool) : wstate -> wev -> wstate := wstep_gen guarded false.
 Definition wrun (guarded : bool) (h : list wev) : wstate := fold_left (wstep guarded) h winit.
 
 (* histories the kernel can produce: a lone writable report only for a registered descriptor with write interest,
@@ -102,7 +109,6 @@ Definition wrun (guarded : bool) (h : list wev) : wstate := fold_left (wstep gua
 Definition wev_ok (s : wstate) (e : wev) : bool :=
   match e with
   | WOut fd false => mem fd (w_peers s)
-  | WRegister fd => mem fd (w_towrite s)       (* Listener::dispatchPeer prepares before it queues the peer *)
   | _ => true
   end.
 
